@@ -85,3 +85,69 @@ func (e *Env) BindAggs() error {
 	}
 	return nil
 }
+
+// BindRowInvs resolves the row types of the declared row invariants.
+func (e *Env) BindRowInvs() error {
+	for _, r := range e.Specs.RowInvs {
+		rt, err := e.lookupType(r.PkgPath, r.RowType)
+		if err != nil {
+			return fmt.Errorf("%s:%d: rowinv %s: %v", r.File, r.Line, r.Name, err)
+		}
+		r.rowT = rt
+		for _, p := range e.Cfg.Prog.AllPackages() {
+			if p.Pkg.Path() == r.PkgPath {
+				r.pkg = p.Pkg
+			}
+		}
+	}
+	return nil
+}
+
+func (ex *Exec) rowInvEval(r *RowInv, row Val, key []*smt.Term) *smt.Term {
+	ev := &evalEnv{ex: ex, vars: map[string]tval{}, oldVars: map[string]tval{}, specs: ex.Cfg.EnvRef.Specs, pkg: r.pkg}
+	ev.vars["row"] = tval{row, r.rowT}
+	for i, k := range key {
+		ev.vars[fmt.Sprintf("key%d", i)] = tval{k, nil}
+	}
+	ex.inSpec++
+	defer func() { ex.inSpec-- }()
+	return ev.bool(r.Expr)
+}
+
+// rowInvAssume: a row of the unknown initial contents satisfies the table's invariants.
+func (ex *Exec) rowInvAssume(ref *RowRef, row Val, t types.Type) {
+	if ref.Table == "" || ex.Cfg.EnvRef == nil {
+		return
+	}
+	memo := ref.Base + "|" + fmt.Sprint(len(ref.Key))
+	for _, k := range ref.TKey {
+		memo += fmt.Sprintf(",%d", k.ID())
+	}
+	if ex.rowInvDone == nil {
+		ex.rowInvDone = map[string]bool{}
+	}
+	if ex.rowInvDone[memo] {
+		return
+	}
+	ex.rowInvDone[memo] = true
+	for _, r := range ex.Cfg.EnvRef.Specs.RowInvs {
+		if r.Table != ref.Table || !types.Identical(r.rowT, t) {
+			continue
+		}
+		ex.assume(ex.rowInvEval(r, row, ref.TKey))
+	}
+}
+
+// rowInvWrite: every write must re-establish the table's row invariants.
+func (ex *Exec) rowInvWrite(id string, key []*smt.Term, val *BytesV) {
+	if ex.Cfg.EnvRef == nil || ex.inSpec > 0 {
+		return
+	}
+	for _, r := range ex.Cfg.EnvRef.Specs.RowInvs {
+		if r.Table != id {
+			continue
+		}
+		row := copyDeep(val.Obj)
+		ex.oblige(ex.TopKey+"/rowinv:"+r.Name, ex.rowInvEval(r, row, key), "write to "+id)
+	}
+}
